@@ -71,6 +71,9 @@ class Ranger:
         # refinement by path conditions that compare e with constants
         for c in conds:
             ce, v = c[0], c[1]
+            if ce == e and isinstance(v, int) and e[0] != "bin":
+                b = (v, v)          # the expression itself was switched on
+                continue
             if not isinstance(v, int) or ce[0] != "bin":
                 continue
             op, x, y = ce[1], ce[2], ce[3]
